@@ -85,7 +85,7 @@ def tlc_stats(path):
     err = None
     with open(path, errors="replace") as f:
         for line in f:
-            if line.startswith('"EDGE') or line.startswith('"STEP') or line.startswith('"CODEC'):
+            if line.startswith('"EDGE') or line.startswith('"STEP') or line.startswith('"CODEC') or line.startswith('"IDS'):
                 continue
             m = re.match(r"(\d+) states generated, (\d+) distinct states found", line)
             if m:
@@ -265,7 +265,7 @@ def run_job(job, prop, tier, seed, scratch, ev):
         total_lines = kept = 0
         for o in outs:
             if mode == "edge":
-                fs, n, k = split_lines(o, prefix, max(4, NCPU // 2), scratch, job.get("rate", 1.0), rng)
+                fs, n, k = split_lines(o, prefix, job.get("shards", max(4, NCPU // 2)), scratch, job.get("rate", 1.0), rng)
                 shards += fs
             else:
                 fs, n, k = split_lines(o, prefix, 1, scratch, 1.0, rng)
@@ -312,8 +312,8 @@ def validate_trace(trace_path, cfg, module, scratch, timeout=900):
     hw = 0
     for m in re.finditer(r'<<"HW", (\d+)>>', out):
         hw = max(hw, int(m.group(1)))
-    m = re.search(r"(\d+) states generated", out)
-    states = int(m.group(1)) if m else 0
+    ms = re.findall(r"(\d+) states generated", out)
+    states = int(ms[-1]) if ms else 0
     shutil.rmtree(d, ignore_errors=True)
     if "Invariant NotAccepted is violated" in out:
         return True, hw, states
